@@ -1096,7 +1096,7 @@ class CbTag(object):
 
 
 def cb_parse(b, i=0):
-    """(value, next index) or raises ValueError; uint, bytes, array (definite / indefinite), map, tag."""
+    """(value, next index) or raises ValueError; ints, bytes, text, array (definite / indefinite), map, tag, simple."""
     if i >= len(b):
         raise ValueError("eof")
     major, ai = b[i] >> 5, b[i] & 31
@@ -1121,10 +1121,14 @@ def cb_parse(b, i=0):
         raise ValueError("head")
     if major == 0:
         return n, i
-    if major == 2:
+    if major == 1:
+        return -1 - n, i
+    if major in (2, 3):
         if i + n > len(b):
             raise ValueError("eof")
-        return bytes(b[i:i + n]), i + n
+        return (bytes(b[i:i + n]) if major == 2 else bytes(b[i:i + n]).decode("utf-8", "replace")), i + n
+    if major == 7:
+        return ("simple", n), i
     if major == 4:
         out = []
         for _ in range(n):
